@@ -47,21 +47,43 @@ def gen(rng, tier):
     for name in ['sub-1_sub-2_epo.fif', 'run-3.fif', 'task-_epo.fif', 'subject-1_epo.fif', '',
                  'sub-01_task-a-b_run-1_epo.fif']:
         yield {'kind': 'mne_name', 'fname': name}
-    for i in range(24 * k):
-        ne, nc, nt = rng.randint(1, 5), rng.randint(1, 4), rng.randint(1, 6)
+    # directed skeleton (i < 0): all epochs share one code; codes repeat and a selection by name
+    # keeps a subset; event_id given in non-sorted order; epoch starting at / after / before the event
+    directed = {-6: dict(codes=[4, 4, 4, 4]), -5: dict(codes=[2, 1, 2, 1, 2], select=['b']),
+                -4: dict(codes=[3, 1, 2, 3, 1], select=['c', 'a'], order=['c', 'b', 'a']),
+                -3: dict(codes=[1, 2], first=0), -2: dict(codes=[5, 5, 6], first=7),
+                -1: dict(codes=[1, 1], first=-12, select=['a'], nt=16)}
+    for i in range(-6, 24 * k):
+        d = directed.get(i, {})
+        codes = d.get('codes')
+        ne, nc, nt = (len(codes) if codes else rng.randint(1, 5)), rng.randint(1, 4), d.get('nt', rng.randint(1, 6))
         sfreq = rng.choice([64, 128, 256, 512])
         data = [[[rat(F(rng.randint(-40, 40), 8)) for _ in range(nt)] for _ in range(nc)]
                 for _ in range(ne)]
         samples = sorted(rng.sample(range(0, 400), ne))
-        events = [[s, rng.choice([0, 0, 1]), rng.randint(1, 9)] for s in samples]
+        if codes is None:
+            pool = rng.choice([[1, 2, 3, 4, 5, 6, 7, 8, 9], [1, 2], [7]])
+            codes = [rng.choice(pool) for _ in samples]
+        events = [[s, rng.choice([0, 0, 1]), c] for s, c in zip(samples, codes)]
         chs = []
         while len(chs) < nc:
             c = rng.choice(['EEG', 'C', 'Fz', 'MEG']) + str(rng.randint(1, 99))
             if c not in chs:
                 chs.append(c)
         case = {'kind': 'mne', 'data': data, 'events': events, 'ch': chs, 'sfreq': sfreq,
-                'tmin_samples': rng.randint(-20, 20), 'via_file': None}
-        if i % 8 == 0:
+                'tmin_samples': d.get('first', rng.randint(-20, 20)), 'via_file': None}
+        # event_id: names 'a', 'b', … for the codes present, in sorted or given / shuffled order;
+        # selection by name(s) on every third random case
+        present = sorted(set(codes))
+        names = {c: 'abcdefghi'[j] for j, c in enumerate(present)}
+        if 'select' in d or (i >= 0 and i % 3 == 1):
+            order = d.get('order') or rng.sample(sorted(names.values()), len(names))
+            inv = {v: c for c, v in names.items()}
+            case['event_id'] = [[n, inv[n]] for n in order]
+            sel = d.get('select') or rng.sample(order, rng.randint(1, len(order)))
+            case['select'] = sel
+            case['select_codes'] = [inv[n] for n in sel]
+        if i >= 0 and i % 8 == 0:
             case['via_file'], case['file_ent'] = fname(rng)
             if not case['via_file'].endswith('epo.fif'):
                 case['via_file'] = case['via_file'].rsplit('_', 1)[0] + '_epo.fif' \
@@ -91,7 +113,10 @@ def _impl(case):
     data = np.array([[[float(F(x)) for x in ch] for ch in ep] for ep in case['data']])
     info = mne.create_info(case['ch'], float(case['sfreq']), ch_types='eeg', verbose='error')
     ep = mne.EpochsArray(data, info, events=np.array(case['events']),
-                         tmin=case['tmin_samples'] / case['sfreq'], verbose='error')
+                         tmin=case['tmin_samples'] / case['sfreq'], verbose='error',
+                         event_id=dict(case['event_id']) if case.get('event_id') else None)
+    if case.get('select'):
+        ep = ep[case['select']]
     descs = None
     if case.get('via_file'):
         path = os.path.join(tmpdir(), case['via_file'])
@@ -110,8 +135,10 @@ def _impl(case):
 def requests(case):
     if case['kind'] == 'mne_name':
         return [{'op': 'c20.mne_name', 'fname': case['fname']}]
+    # the model derives the time axis from the first sample, the rate and the epoch length
     reqs = [{'op': 'c20.mne', 'data': case['data'], 'events': case['events'], 'ch': case['ch'],
-             'times': [rat(t) for t in times_of(case)]}]
+             'first': case['tmin_samples'], 'sfreq': case['sfreq'],
+             'n_times': len(case['data'][0][0]), 'select': case.get('select_codes')}]
     if case.get('via_file'):
         reqs.append({'op': 'c20.mne_name', 'fname': case['via_file']})
     return reqs
@@ -142,7 +169,11 @@ def oracle(case):
     if 'exc' in out:
         return {'what': 'epochs not converted', 'observed': out, 'expected': 'TemporalDataset',
                 'features': {}}
-    data = [[[float(F(x)) for x in ch] for ch in ep] for ep in case['data']]
+    keep = [True] * len(case['events'])
+    if case.get('select'):
+        keep = [e[2] in case['select_codes'] for e in case['events']]
+    data = [[[float(F(x)) for x in ch] for ch in ep] for ep, k_ in zip(case['data'], keep) if k_]
+    case = dict(case, events=[e for e, k_ in zip(case['events'], keep) if k_])
     if out['measurements'] != data:
         return {'what': 'temporal dataset measurements differ from the epochs data',
                 'observed': out['measurements'][0], 'expected': data[0], 'features': {}}
@@ -169,7 +200,23 @@ def oracle(case):
 def feats(case, impl_res):
     if case['kind'] == 'mne_name':
         return {'kind': 'mne_name', 'branches': ['mne:name' if case.get('expect') else 'mne:name_odd']}
-    return {'kind': 'mne', 'branches': ['mne:file' if case.get('via_file') else 'mne:array']}
+    b = ['mne:file' if case.get('via_file') else 'mne:array']
+    codes = [e[2] for e in case['events']]
+    if len(set(codes)) < len(codes):
+        b.append('mne:repeated_ids')
+    if case.get('select'):
+        b.append('mne:select')
+        if len(case['select']) > 1:
+            b.append('mne:select_many')
+    if case.get('event_id') and [c for _, c in case['event_id']] != sorted(c for _, c in case['event_id']):
+        b.append('mne:event_id_order')
+    t = case['tmin_samples']
+    b.append('mne:tmin_zero' if t == 0 else 'mne:tmin_pos' if t > 0 else 'mne:tmin_neg')
+    if t < 0 and -t < len(case['data'][0][0]):
+        b.append('mne:time_zero_inside')
+    return {'kind': 'mne', 'branches': b}
 
 
-BRANCHES = ['mne:name', 'mne:name_odd', 'mne:array', 'mne:file']
+BRANCHES = ['mne:name', 'mne:name_odd', 'mne:array', 'mne:file', 'mne:repeated_ids', 'mne:select',
+            'mne:select_many', 'mne:event_id_order', 'mne:tmin_zero', 'mne:tmin_pos', 'mne:tmin_neg',
+            'mne:time_zero_inside']
